@@ -118,6 +118,22 @@ def prove(hyps, goal, timeout_ms=None, use_cvc5=True, want_model=True):
         return "proved", "z3", None, dt
     if r == z3.sat:
         return "failed", "z3", (s.model() if want_model else None), dt
+    reason = s.reason_unknown()
+    if "incomplete" in reason or "quantifier" in reason:
+        # z3 has a candidate model it cannot check against quantified hypotheses (not a timeout). Decide on the
+        # quantifier-free part: unsat there proves the obligation; sat there is a counterexample candidate.
+        qf = [h for h in list(hyps) + facts if not _has_quantifier(h)]
+        s2 = z3.Solver()
+        s2.set("timeout", timeout_ms)
+        for h in qf:
+            s2.add(h)
+        s2.add(z3.Not(goal))
+        r2 = s2.check()
+        dt = time.time() - t0
+        if r2 == z3.unsat:
+            return "proved", "z3", None, dt
+        if r2 == z3.sat and not _has_quantifier(goal):
+            return "failed", "z3(candidate: quantified hypotheses not checked by the model)", (s2.model() if want_model else None), dt
     if use_cvc5:
         c = run_cvc5(to_smt2(list(hyps) + facts, goal))
         dt = time.time() - t0
@@ -126,6 +142,20 @@ def prove(hyps, goal, timeout_ms=None, use_cvc5=True, want_model=True):
         if c == "sat":
             return "failed", "cvc5", None, dt
     return "unknown", "z3+cvc5" if use_cvc5 else "z3", None, dt
+
+
+def _has_quantifier(e):
+    seen = set()
+    work = [e]
+    while work:
+        x = work.pop()
+        if x.get_id() in seen:
+            continue
+        seen.add(x.get_id())
+        if z3.is_quantifier(x):
+            return True
+        work.extend(x.children())
+    return False
 
 
 def cross_check_cvc5(hyps, goal):
